@@ -92,7 +92,12 @@ def run(tier, seed, replay=None):
         return 0, dict(evaluations=1, distinct_nontrivial=0, obligations=len(gate['theorems']), discharged=len(gate['theorems']), checker_cmd='replay', trusted_base=[]), 0
     cases = []
     for i in range(n):
-        c = gp.gen_case(rng, ['flat', 'multi', 'nested', 'unsized'][i % 4])
+        if i % 6 == 4:
+            # dispatch traits named through paths (two qualifying segments, the same last segment
+            # at two depths, the same path at two argument lists)
+            c = gp.gen_case(rng, 'twokeys', idx=[3, 1, 5, 0][(i // 6) % 4])
+        else:
+            c = gp.gen_case(rng, ['flat', 'multi', 'nested', 'unsized'][i % 4])
         # supertraits/where-clauses of the richer trait texts need world support: Tr0 + Clone for atoms
         c.trait_prefix = ['', '', 'self::', '', '::me::inv::', ''][i % 6]
         cases.append((c, [TRAITS[0], TRAITS[3], TRAITS[2], TRAITS[0], TRAITS[3]][i % 5]))
